@@ -71,6 +71,7 @@ class ClassInfo:
         self.methods = {}
         self.setters = {}
         self.attrs = {}  # class-level assignments name -> value expr
+        self.fields = []  # annotated class-level names, in order (the fields of a pydantic model)
 
     def __repr__(self):
         return f"Cls<{self.qual}>"
@@ -190,12 +191,16 @@ class Program:
                     for t in b.targets:
                         if isinstance(t, ast.Name):
                             ci.attrs[t.id] = b.value
-                elif isinstance(b, ast.AnnAssign) and isinstance(b.target, ast.Name) and b.value is not None:
-                    ci.attrs[b.target.id] = b.value
+                elif isinstance(b, ast.AnnAssign) and isinstance(b.target, ast.Name):
+                    ci.fields.append(b.target.id)           # annotated names: the fields of a (pydantic) model
+                    if b.value is not None:
+                        ci.attrs[b.target.id] = b.value
         elif isinstance(n, ast.Assign):
             for t in n.targets:
                 if isinstance(t, ast.Name):
-                    env[t.id] = ("global", n.value)
+                    env[t.id] = ("global", n.value, m.name)
+        elif isinstance(n, ast.AnnAssign) and isinstance(n.target, ast.Name) and n.value is not None:
+            env[n.target.id] = ("global", n.value, m.name)
         elif isinstance(n, ast.If):
             # `if typing.TYPE_CHECKING:` blocks and the like: index both branches
             for s in n.body + n.orelse:
@@ -386,6 +391,66 @@ class Program:
                     loc.add(n.name)
             fi._locals = loc
         return name in loc
+
+    def exact_method(self, ci, name):
+        """method `name` of class ci as executed by an instance of EXACTLY that class (class-level tables and helper methods resolved
+        for ci, whatever its subclasses re-define) - for rules that are stated per algorithm class.  A FuncInfo whose class is ci;
+        the plain method when it is defined in another module than ci or cannot be specialised"""
+        cache = self.__dict__.setdefault("_exact", {})
+        key = (ci.qual, name)
+        if key in cache:
+            return cache[key]
+        base = self.find_method(ci, name)
+        out = base
+        d = getattr(self, "desugarer", None)
+        if base is not None and d is not None and base.mod == ci.mod and not getattr(base, "is_static", False):
+            node = d.exact(ci.mod, ci.node, name)
+            if node is not None:
+                out = FuncInfo(base.mod, node, cls=ci)
+                out.is_property, out.is_static, out.is_classmethod = base.is_property, base.is_static, base.is_classmethod
+                out.generic = base
+        cache[key] = out
+        return out
+
+    def model_fields(self, ci, attr):
+        """field names of the (pydantic) model class that class ci names in its class-level attribute `attr` (RunParamCls / ResultCls),
+        inherited fields included; None when that class is not found in the package"""
+        c, v = self.find_classattr(ci, attr)
+        if v is None:
+            return None
+        try:
+            r = self.resolve_expr(c.mod, v)
+        except Exception:
+            return None
+        if not isinstance(r, ClassInfo):
+            return None
+        out = []
+        for k in reversed(self.mro(r)):
+            for f_ in k.fields:
+                if f_ not in out:
+                    out.append(f_)
+        return out
+
+    def class_methods(self, prefix, name):
+        """(class, method `name` as an instance of exactly that class executes it) for the classes of the modules under `prefix`: every
+        class that defines the method, and every class that inherits it but sees it differently (other class-level tables / helper
+        methods)"""
+        out = []
+        for ci in self.classes.values():
+            if not ci.mod.startswith(prefix):
+                continue
+            base = self.find_method(ci, name)
+            if base is None:
+                continue
+            ex = self.exact_method(ci, name)
+            if name in ci.methods:
+                out.append((ci, ex))
+                continue
+            if base.cls is not None and base.cls.mod.startswith(prefix) and ex is not base:
+                ref = self.exact_method(base.cls, name)
+                if ast.dump(ex.node) != ast.dump(ref.node):
+                    out.append((ci, ex))
+        return out
 
     def calls_in(self, fi):
         """[(call node, resolved)] for every call expression in fi (nested defs included)."""
